@@ -321,6 +321,8 @@ class Vocab:
 def block_tokens(b, out):
     """expected token sequence of one shadow block (a dict: {"type":, "items": [[key, item], ...]})"""
     t = b["type"]
+    if t is None:
+        raise Unprintable("<empty object in a list of objects>")
     if t in KV_BLOCKS:
         out.append(["W", t.upper()])
         for k, v in b["items"]:
